@@ -238,7 +238,10 @@ class ResultTypesGenerator:
             )
 
         if fragments:
-            class_bases = [str_to_pascal_case(f) for f in sorted(fragments)]
+            class_bases = [
+                str_to_pascal_case(f)
+                for f in sorted(self._remove_inherited_fragments(fragments))
+            ]
         else:
             class_bases = [BASE_MODEL_CLASS_NAME]
         if extra_bases:
@@ -341,6 +344,30 @@ class ResultTypesGenerator:
             set(fragments)
         )
         return fields, fragments
+
+    def _remove_inherited_fragments(self, fragments: Set[str]) -> Set[str]:
+        # Fragment which is already a base of another fragment from the set
+        # can't be listed as a base again: python is not able to create
+        # consistent MRO for bases (A, B) if B is a subclass of A.
+        inherited: Set[str] = set()
+        for fragment_name in fragments:
+            inherited = inherited.union(self._get_fragment_bases(fragment_name))
+        return fragments - inherited
+
+    def _get_fragment_bases(self, fragment_name: str) -> Set[str]:
+        fragment_def = self.fragments_definitions[fragment_name]
+        used_as_mixins = self._fragments_used_as_mixins
+        unpacked = set(self._unpacked_fragments)
+        _, bases = self._resolve_selection_set(
+            fragment_def.selection_set, fragment_def.type_condition.name.value
+        )
+        self._fragments_used_as_mixins = used_as_mixins
+        self._unpacked_fragments = unpacked
+
+        result = set(bases)
+        for base in bases:
+            result = result.union(self._get_fragment_bases(base))
+        return result
 
     def _get_inline_fragment_root_type(
         self, selection_value: str, root_type: str
